@@ -989,7 +989,9 @@ Proof. reflexivity. Qed.
 (* outside the modelled fragment the model answers PUnmodelled: *)
 Example w_nan : common_parse_value (VFloat false {| f_ip := 0; f_frac := false; f_cls := FNaN; f_text := [] |}) = PUnmodelled.
 Proof. reflexivity. Qed.
-Example w_exponent : number_parse_value (VStr [49;101;51]%N) = PUnmodelled.   (* "1e3" *)
+Example w_exponent : number_parse_value (VStr [49;101;52;48;48]%N) = PUnmodelled.   (* "1e400"; "1e3" is modelled: *)
+Proof. reflexivity. Qed.
+Example w_exponent_modelled : number_parse_value (VStr [49;46;53;69;51]%N) = POk [PNum 1500].   (* "1.5E3" *)
 Proof. reflexivity. Qed.
 
 (* FINDING 1: CommonStrParser.ParseAssign on []interface{} skips unsupported elements (ParseValue rejects) *)
